@@ -19,6 +19,9 @@ PROGRAMS = [
     "-fprint A , -fprint0 A , -printf 'x'", "-fprint A , -fprint B , -print", "-name a -print -o -name b -print",
     "-print , -printf '%U\\n' , -printf '%G\\n'", "-print0 , -printf 'y' , -fprintf A 'z'", "-print , -print-file-fid",
     "-printf '%p\\n%s'", "-print , -printf 'a\\nb'", "-printf '%p\\n%s\\n'",
+    # formats with the \\c escape: unreadable today (known finding clear-escape of C02/C04, skipped here); once \\c is implemented
+    # the records they produce in plain mode must still be terminated lines
+    "-printf '%p\\c\\n'", "-print , -printf 'a\\c%s\\n'",
 ]
 
 
@@ -161,10 +164,14 @@ def run(ctx, rep, tier):
     states = transitions = 0
     n_traces = 0
     shapes = [(2, 1), (2, 2)] if tier == "quick" else [(2, 1), (2, 2), (3, 1), (3, 2)]
+    skipped_clear = []
     for text in PROGRAMS:
         try:
             calls, prog = action_steps(B, text)
         except (ReadError, RuntimeErr) as e:
+            if "\\c" in text and "\\c" in str(e):
+                skipped_clear.append(text)            # known finding clear-escape (C02/C04): the program cannot be read at all
+                continue
             rep.violation("program-unreadable", "%r: %s" % (text, e), dict(input=text))
             continue
         if not calls:
@@ -237,7 +244,7 @@ def run(ctx, rep, tier):
                explanation="step sequences extracted by evaluating the emitted printer code; per program and per assignment of calls "
                "to thread slots z3 decides over ALL schedules (total orders respecting program order and mutual exclusion) whether a record "
                "can be torn; lock-order cycles checked for deadlock",
-               bounds=dict(programs=len(PROGRAMS), thread_shapes=shapes, printers="1..3"), evaluations=len(rep.queries), distinct_nontrivial=len(rep.queries),
+               bounds=dict(programs=len(PROGRAMS), skipped_because_of_known_clear_escape=skipped_clear, thread_shapes=shapes, printers="1..3"), evaluations=len(rep.queries), distinct_nontrivial=len(rep.queries),
                outside="the runtime's own direct writes (print-relative-path, print-file-fid) are assumed serialised by the runtime; Guile's with-mutex/display semantics are the modelled contract")
     rep.coverage = cov
     rep.assumptions = ["make-printer holds its mutex across payload and terminator; with-mutex is a critical section; display is one atomic write"]
